@@ -6,7 +6,8 @@
      exact-size buffers; TLC recomputes every logged call (Trace_Belt);
  (2) FMT: values over alphabets x word lengths and the block-count table (breakpoints; complete in
      the thorough tier) decided with exact integer arithmetic in TLC;
- (3) replay direction: TLC generates cases with predicted outputs (Gen_Belt), the harness executes them.
+ (3) replay direction: TLC generates cases with predicted outputs (Gen_Belt), the harness executes them;
+ (4) WBL / SDE / FMT states reused for several messages (spec/sm/MsgApi.tla): every history of <= 2 calls.
 """
 import os, json, glob, re
 import vlib
@@ -107,6 +108,16 @@ def run(ctx):
     total += n
     distinct |= set("steps:%s:%s" % (x["b"], x["script"]) for x in srows)
     ev.cov["bundle_scripts_validated"] = n
+    # (1c) WBL / SDE / FMT states reused for several messages: every history of up to 2 whole-message calls
+    #      TLC explores in spec/sm/MsgApi.tla (3 calls: C10), each call judged by its own arguments
+    import msgs
+    hist, st, tr = msgs.gen_histories(ctx, 2)
+    nm, dm = msgs.run_histories(ctx, drv, hist)
+    total += nm
+    distinct |= set("msgs:%s:%s" % k for k in dm)
+    ev.cov["message_history_calls_validated"] = nm
+    ev.cov["message_histories"] = len(dm)
+    ev.add("tlc_states", st)
     # (2) FMT
     fmt = ctx.path("fmt.ndjson")
     rc, _, err = vlib.run_harness(drv, ["fmt", tier], out_path=fmt, env=env, timeout=1800)
